@@ -50,12 +50,19 @@ func main() {
 		// private scratch directory per run (concurrent checks must not share SMT files)
 		workDir = filepath.Join(verifDir, "work", fmt.Sprintf("%s-%d", rest[0], os.Getpid()))
 		rc := runCheck(rest[0], *tier, *repo, *verbose, *only, *timeout)
-		if rc == 0 && os.Getenv("VERIF_KEEP_WORK") == "" {
+		// the scratch directory is always removed (the SMT files of failed obligations are copied next to their replay
+		// files first); VERIF_KEEP_WORK=1 keeps it for debugging
+		if os.Getenv("VERIF_KEEP_WORK") == "" {
 			os.RemoveAll(workDir)
 		}
 		os.Exit(rc)
 	case "lemmas":
-		os.Exit(runLemmas(*verbose, *only, *timeout))
+		workDir = filepath.Join(verifDir, "work", fmt.Sprintf("lemmas-%d", os.Getpid()))
+		rc := runLemmas(*verbose, *only, *timeout)
+		if os.Getenv("VERIF_KEEP_WORK") == "" {
+			os.RemoveAll(workDir)
+		}
+		os.Exit(rc)
 	default:
 		fmt.Fprintln(os.Stderr, "unknown command", cmd)
 		os.Exit(2)
@@ -586,8 +593,15 @@ func runCheck(prop, tier, repo string, verbose bool, only string, timeout int) i
 			continue // reported through its sibling pieces
 		}
 		rp := filepath.Join(verifDir, "replays", prop+"-"+sanitize(o.Name)+".json")
+		smtCopy := ""
+		if o.Res.File != "" {
+			if b, err := os.ReadFile(o.Res.File); err == nil && len(b) < 4<<20 {
+				smtCopy = strings.TrimSuffix(rp, ".json") + ".smt2"
+				os.WriteFile(smtCopy, b, 0o644)
+			}
+		}
 		rep := map[string]interface{}{"property": prop, "obligation": o.Name, "kind": o.Kind, "function": o.Func, "position": o.Pos,
-			"status": o.Res.Status, "solver_output": o.Res.Output, "model": o.Res.Model, "smt_file": o.Res.File, "note": o.Note,
+			"status": o.Res.Status, "solver_output": o.Res.Output, "model": o.Res.Model, "smt_file": smtCopy, "note": o.Note,
 			"failing_input": nil}
 		// replay against the real code (one run per function under contract)
 		var failing, out string
